@@ -145,8 +145,8 @@ def run(tier):
             else:
                 R.append([inp, levels, "x", q, 0, [], "", raised])
     # ---- asymmetric prefixes: out prefix differs from in prefix
-    for inp, outp in itertools.islice(itertools.product(pref[::4], pref[::5]), 60):
-        gw, pubs, subs, _ = build_gateway(inp, outp)
+    for ai, (inp, outp) in enumerate(itertools.islice(itertools.product(pref[::4], pref[::5]), 60)):
+        gw, pubs, subs, _ = build_gateway(inp, outp, flavour="sync" if ai % 2 else "async")
         h = [rng.choice(hvals) for _ in range(5)]
         h[3] = rng.choice(["0", "1"])
         gw.tasks.transport.send(";".join(h) + ";v\n")
